@@ -579,7 +579,7 @@ def gen_bracket(rng, span, n, style):
             return ('li', gen_label(rng, span), w)
         la = gen_label(rng, span) if rng.random() < 0.8 else None
         lb = gen_label(rng, span) if rng.random() < 0.8 else None
-        s = rng.choice([None, None, '1', '2', '3']) if rng.random() < 0.5 else None
+        s = rng.choice([None, None, '1', '2', '3', '-1']) if rng.random() < 0.5 else None
         return ('ls', la, lb, s, w)
     q = rng.random()
     if q < 0.4:
@@ -592,7 +592,7 @@ def gen_bracket(rng, span, n, style):
         def e():
             return None if rng.random() < 0.3 else str(rng.randint(-n - 1, n + 1))
         a, b = e(), e()
-        s = rng.choice([None, None, None, '1', '2'])
+        s = rng.choice([None, None, None, '1', '2', '-1'])
         return ('ps', a, b, s, w)
     return ('nl', rng.choice(['1-1', '0+0', '[0, 0]', '-1+1', 'True', '0,']))
 
@@ -963,7 +963,9 @@ def oracle_expr(case, obs, fails):
     if has_tick and nonlit and got[:2] == ['raise', 'ValueError']:
         bad(SIG15B, 'with a backtick elsewhere in the expression a non-literal positional bracket raises ValueError: %r' % case['expr'])
         return
-    if has_tick and stop and not nonlit and got == _ref_eval(case, 'ref15', _d0(case)):
+    r15 = _ref_eval(case, 'ref15', _d0(case)) if (has_tick and stop and not nonlit) else None
+    # (r15 == ['oos']: with the shifted stop a helper meets a scalar / 2-D value, on which the statement is silent)
+    if r15 is not None and (got == r15 or r15 == ['oos']):
         bad(SIG15A, 'with a backtick elsewhere in the expression a positional slice X[a:b] is evaluated as X[a:b+1]: %r' % case['expr'])
         return
     if _d0(case) and got == _ref_eval(case, 'ref', True):
